@@ -92,6 +92,14 @@ CLARABEL_STOPS = [
 ]
 
 
+# contradictory equalities over free variables: the interior point backend stops with status Solved at values of
+# size 1e19 whose products cancel to 0 in both rows; no entry point may return a solution
+CONTRADICTIONS = [
+    {"id": "h_contradiction_free", "sense": "min", "obj": [1, 0], "off": 0, "den": 1, "vars": [R("v0"), R("v1")], "rows": [row([1, 1], "eq", 1), row([1, 1], "eq", 2)]},
+    {"id": "h_contradiction_free_scaled", "sense": "max", "obj": [0, -3], "off": 0, "den": 4, "vars": [R("v0"), R("v1")], "rows": [row([-1, -4], "eq", 2), row([1, 4], "eq", 2)]},
+]
+
+
 def cycling_cases():
     """The cycling / degenerate tableaux of spec/simplex/library.ndjson (Beale, Kuhn, ...) as linear
     models: the non-basic columns are non-negative variables, each basic (slack) column is a <= row.
@@ -113,7 +121,7 @@ def cycling_cases():
 
 def gen(tier, seed):
     meta = {}
-    cases = copy.deepcopy(HAND) + copy.deepcopy(DEGENERATE) + copy.deepcopy(SCALED) + copy.deepcopy(NAMED) + copy.deepcopy(CLARABEL_STOPS) + cycling_cases()
+    cases = copy.deepcopy(HAND) + copy.deepcopy(DEGENERATE) + copy.deepcopy(SCALED) + copy.deepcopy(NAMED) + copy.deepcopy(CLARABEL_STOPS) + copy.deepcopy(CONTRADICTIONS) + cycling_cases()
     plan = [("Cont1.cfg", 350, None), ("Mixed1.cfg", 350, None), ("Cont2.cfg", 350, None), ("Mixed2.cfg", 450, None), ("Offset1.cfg", 200, None), ("Offset2.cfg", 300, None),
             ("SimMixed3.cfg", 250 if tier == "quick" else 6000, (3 if tier == "quick" else 40, 9)),
             ("SimCont3.cfg", 150 if tier == "quick" else 3000, (3 if tier == "quick" else 30, 9))]
